@@ -220,9 +220,14 @@ func gen(gg *hx.Gen) {
 			g.Stat("aead.nonce-byte")
 		}
 		dst, spare := dstFor(r, max(0, len(ct)-16))
+		place := "sep"
+		if r.Chance(1, 3) { // in place: dst = prefix of one buffer, the ciphertext right behind it (dst = ct[:0] for no prefix)
+			place, spare = "inplace", 0
+			g.Stat("aead.open.inplace(x3paths)")
+		}
 		g.Stat(fmt.Sprintf("aead.open.x=%d(x3paths)", x))
 		for _, p := range paths {
-			g.Emit("open x=%d path=%s key=%s nonce=%s ad=%s ct=%s dst=%s cap=%d", x, p, hx.Hex(key), hx.Hex(nonce), hx.Hex(ad), hx.Hex(ct), hx.Hex(dst), spare)
+			g.Emit("open x=%d path=%s key=%s nonce=%s ad=%s ct=%s dst=%s cap=%d place=%s", x, p, hx.Hex(key), hx.Hex(nonce), hx.Hex(ad), hx.Hex(ct), hx.Hex(dst), spare, place)
 		}
 	}
 	// ---- secretbox
@@ -387,6 +392,19 @@ func execOne(o hx.Op, ar *arena) string {
 			ret, err = op(d, ar.In("key", key), ar.In("nonce", nonce), ar.In("ct", ct), ar.In("ad", ad))
 			return ret, err, spareOf(d), ar.mutated()
 		}
+		if o.Cmd == "open" && o.Str("place") == "inplace" {
+			ar.begin()
+			d, in := ar.Joint("io", dst0, ct, 0, fill)
+			region := d[len(d):cap(d)] // the input region, which is also where `out` lives
+			ret, err := op(d, ar.In("key", key), ar.In("nonce", nonce), in, ar.In("ad", ad))
+			if err != nil {
+				if ret != nil {
+					return "err-with-data"
+				}
+				return "err z=" + hx.Hex(region) + ar.mutated()
+			}
+			return "ok " + hx.Hex(ret) + " z=" + hx.Hex(region) + ar.mutated()
+		}
 		if o.Cmd == "open" {
 			ret, err, sp, mut := call(key, nonce, ct, ad)
 			if err != nil {
@@ -458,9 +476,9 @@ func execOne(o hx.Op, ar *arena) string {
 		var ret []byte
 		var ok bool
 		if o.Int("pre") == 1 {
-			var shared [32]byte
-			box.Precompute(&shared, pub, priv)
-			ret, ok = box.OpenAfterPrecomputation(dst, bx, nonce, &shared)
+			shared := ar.G32("shared") // out-parameter pre-filled with non-zero garbage
+			box.Precompute(shared, pub, priv)
+			ret, ok = box.OpenAfterPrecomputation(dst, bx, nonce, shared)
 		} else {
 			ret, ok = box.Open(dst, bx, nonce, pub, priv)
 		}
